@@ -141,7 +141,7 @@ def main():
     from pydap.model import BaseType
 
     kf = {e["id"]: e for e in known_findings(PID) if e.get("status") == "known"}
-    direct, scope_cases = [], []
+    direct, scope_cases, sized_cases = [], [], []
     stats = {"nc_files": 0, "nc_variables": 0, "shadowed_names": 0, "hyperslabs": 0, "scalars": 0, "csv_files": 0, "csv_requests": 0,
              "csv_empty": 0}
     tmp = tempfile.mkdtemp(prefix="verif_c20_")
@@ -160,7 +160,7 @@ def main():
                 direct.append({"law": "a generated NetCDF4 file can be opened by the handler", "spec": repr(spec)[:1500], "error": repr(e)[:300]})
                 continue
             ds = h.dataset
-            observed, problems = [], []
+            observed, observed_sized, problems = [], [], []
 
             def visit(g, gpath, chain):
                 chain = [(gpath, g["dims"])] + chain
@@ -176,6 +176,7 @@ def main():
                     want_dims = [nearest(gpath, chain, d) for d in vd]
                     stats["shadowed_names"] += sum(1 for d in vd if sum(1 for p, dd in chain if d in dd) > 1)
                     observed.append((fqv if gpath else "/" + n, list(v.dims)))
+                    observed_sized.append((fqv if gpath else "/" + n, list(zip(list(v.dims), [int(e) for e in v.shape]))))
                     if np.dtype(v.dtype) != data.dtype:
                         problems.append((fqv, "type", str(v.dtype), str(data.dtype)))
                     if tuple(v.shape) != data.shape:
@@ -234,6 +235,8 @@ def main():
                                       "dimension names, attributes and raw values; served hyperslabs equal the library's reads",
                                "file_spec": repr(spec)[:1800], "differences": [list(map(str, p)) for p in problems[:6]]})
             scope_cases.append("(%s, %s)" % (c_grp("", spec), clist(observed, lambda o: "(%s, %s)" % (ctext(o[0]), clist(o[1], ctext)))))
+            sized_cases.append("(%s, %s)" % (c_grp("", spec), clist(observed_sized, lambda o: "(%s, %s)" % (
+                ctext(o[0]), clist(o[1], lambda dn: "(%s, %d%%nat)" % (ctext(dn[0]), dn[1]))))))
 
         # ------------------------------------------------------------ CSV
         for i in range(25 if T == "quick" else 300):
@@ -340,8 +343,14 @@ def main():
     except RuntimeError as e:
         r.violation({"kind": "correspondence-broken", "error": str(e)[-1500:], "theorem": "C20 correspondence"}, found=False)
         bad = []
+    try:
+        bad_sized = coq_eval_mismatches(PID + "_sized", IMPORTS, "chk_sized", sized_cases, "grp * list (string * list (string * nat))",
+                                        shard=100, ztype=False)
+    except RuntimeError as e:
+        r.violation({"kind": "correspondence-broken", "error": str(e)[-1500:], "theorem": "C20 correspondence (sizes)"}, found=False)
+        bad_sized = []
     r.extra["cases"] = {"netcdf_files": len(scope_cases)}
-    r.extra["mismatches"] = {"netcdf_files": len(bad)}
+    r.extra["mismatches"] = {"netcdf_files": len(bad), "netcdf_files_sized": len(bad_sized)}
     r.extra["distribution"] = stats
     r.cov["rule"] = ("(a) NetCDF4 files written with the netCDF4 library: groups to depth 2, dimensions re-declared in nested and sibling groups, "
                      "variables of 9 types (i1..i4, u1..u4, f4, f8, S1) and rank 0-3, coordinate variables, scale_factor / add_offset / "
@@ -359,6 +368,9 @@ def main():
             continue
         seen.add(d["law"])
         r.violation(dict(d, kind="property-violated", how="handler.dataset and decoded responses vs netCDF4 / csv reads of generated files"), found=True)
+    if not direct and bad_sized and not bad:
+        r.violation({"kind": "correspondence-broken", "theorem": "correspondence of the NetCDF handler's shapes with vars_sized (props/C20.v)",
+                     "case": sized_cases[bad_sized[0]][:3000], "n_mismatches": len(bad_sized)}, found=False)
     if not direct and bad:
         r.violation({"kind": "correspondence-broken", "theorem": "dimension names given by the NetCDF handler vs the Gallina scoping model (props/C20.v)",
                      "case": scope_cases[bad[0]][:3000], "n_mismatches": len(bad)}, found=False)
